@@ -105,6 +105,16 @@ def run(run):
     run.rule = "one item per (dataset, flag); per path: membership (structural), minimality and completeness of the returned set (solver)"
     items = sweep.make_items(run, ["PickAPerm"], [chk_pick, "wellformed"], flags=(True, False), light=light, heavy=light)
     items += sweep.history_items(run, ["PickAPerm"], [chk_pick, "wellformed"], 12 if run.thorough else 6, flags=(True, False))
+    # element names whose text mimics the delimiters of the textual form: different rankings with the same str()
+    odd = {2: ["x", "x}, {x"], 3: ["x", "x}, {x", "x], [x"]}
+    n_odd = 0
+    for n, m in ((2, 2), (2, 3), (3, 2)):
+        for lvs in sweep.dataset_pool(n, m):
+            if all(-1 not in r for r in lvs):
+                for fl in (True, False):
+                    items.append(("PickAPerm", lvs, odd[n], fl, [chk_pick, "wellformed"]))
+                    n_odd += 1
+    run.bounds["complete datasets (n,m) in (2,2),(2,3),(3,2) with delimiter-like element names ('x', 'x}, {x', 'x], [x')"] = n_odd
     run.pmap("pickaperm", sweep.run_item, items, chunksize=4)
     import random
     rnd = random.Random(run.seed)
